@@ -4,7 +4,8 @@ padding, voxel size 3*l_min + 2*cut-off, registration interval of a face, single
 TLC checks Complete (a node in the padded box of a face finds it in its voxel), RangeImpliesBox and NoOOB for every arrangement in the bound
 (registration and lookup are per-axis products, so per-axis completeness gives completeness in space); the rule of the code before the fix
 of the out-of-grid registration is refuted as a control.  Real contact_model::run on lattice tissues (2-3 cells at every relative offset
-of a window, several scales and positions incl. straddling the origin and exact voxel alignment) in each contact model build is compared
+of a window, several scales and positions incl. straddling the origin and exact voxel alignment; fresh cells and cells with unused slots
+inside their node / face lists, as edge collapses leave them) in each contact model build is compared
 with the same public narrow phase applied to ALL node-triangle pairs of different cells: forces must be equal and add up to zero."""
 import itertools, json, os, random, shutil
 import vlib
@@ -44,6 +45,14 @@ def cases(tier, seed):
         cells = [{"shape": rnd.choice(["box", "octa", "tetra"]), "dims": [rnd.randint(1, 2) for _ in range(3)], "k": 1,
                   "at": [base[a] + rnd.randint(-3, 3) for a in range(3)], "type": types[i]} for i in range(k)]
         add(cells, rnd.choice([1.0, 2.0 ** -17]), rnd.choice([1, 2]), rnd.choice([1, 2]))
+    # histories: cells whose node / face lists contain unused slots before live elements (what edge collapses leave behind until
+    # the next compaction; contact detection runs on such cells in every iteration that follows a collapse)
+    for c in list(out[:: 3 if tier == "quick" else 1]):
+        d = json.loads(json.dumps(c))
+        for cc in d["cells"]:
+            cc["frag"] = rnd.choice([1, 2, 3, 5])
+            cc["fragn"] = rnd.random() < 0.5
+        out.append(d)
     for i, c in enumerate(out):
         c["k"] = i + 1
     return out
